@@ -27,6 +27,7 @@ import (
 	"github.com/foxcpp/maddy/framework/log"
 	"github.com/foxcpp/maddy/framework/module"
 	"github.com/foxcpp/maddy/internal/testutils"
+	"golang.org/x/net/idna"
 	"pgregory.net/rapid"
 	"verifkit/ev"
 )
@@ -39,11 +40,14 @@ var c07Org = map[string]string{
 	"sibling.example.co.uk": "example.co.uk", "x.example.co.uk": "example.co.uk",
 	"co.uk": "", "org": "", "uk": "", "x.co.uk": "x.co.uk",
 	"other.net": "other.net", "": "-",
+	// internationalised names (keys in U-label form; A-label spellings are converted before the table is consulted)
+	"bücher.example": "bücher.example", "sub.bücher.example": "bücher.example", "x.bücher.example": "bücher.example", "x.sub.bücher.example": "bücher.example",
+	"sibling.bücher.example": "bücher.example", "notbücher.example": "notbücher.example", "example": "",
 	// names that merely end in the From domain's organisational domain, not at a label boundary
 	"notexample.org": "notexample.org", "notexample.co.uk": "notexample.co.uk", "notco.uk": "notco.uk",
 }
 
-var c07FromDomains = []string{"example.org", "sub.example.org", "mail.example.co.uk", "example.co.uk", "co.uk", "Sub.Example.ORG"}
+var c07FromDomains = []string{"example.org", "sub.example.org", "mail.example.co.uk", "example.co.uk", "co.uk", "Sub.Example.ORG", "bücher.example", "sub.bücher.example"}
 
 var c07Values = []authres.ResultValue{authres.ResultPass, authres.ResultFail, authres.ResultNone, authres.ResultNeutral,
 	authres.ResultSoftFail, authres.ResultTempError, authres.ResultPermError}
@@ -58,12 +62,28 @@ const (
 	relUpper
 	relEmpty
 	relLookalike
+	relALabel
 	relCount
 )
 
-var c07RelNames = []string{"same", "subdomain", "org", "sibling", "public-suffix", "unrelated", "upper-case-same", "empty", "look-alike-suffix"}
+var c07RelNames = []string{"same", "subdomain", "org", "sibling", "public-suffix", "unrelated", "upper-case-same", "empty", "look-alike-suffix", "same-in-a-labels"}
 
-func c07Lower(s string) string { return strings.ToLower(s) }
+// c07Lower: the canonical spelling of a domain (lower case, U-labels)
+func c07Lower(s string) string {
+	u, err := idna.ToUnicode(strings.ToLower(s))
+	if err != nil {
+		return strings.ToLower(s)
+	}
+	return strings.ToLower(u)
+}
+
+func c07ALabel(s string) string {
+	a, err := idna.ToASCII(strings.ToLower(s))
+	if err != nil {
+		panic(err)
+	}
+	return a
+}
 
 // c07Rel builds an identifier domain standing in a known relation to the From domain.
 func c07Rel(from string, rel int) string {
@@ -93,6 +113,8 @@ func c07Rel(from string, rel int) string {
 		return "other.net"
 	case relUpper:
 		return strings.ToUpper(from)
+	case relALabel:
+		return c07ALabel(from)
 	case relLookalike:
 		if org == "" {
 			return "not" + lf
@@ -124,7 +146,8 @@ type c07Scenario struct {
 	CheckQuarantines bool `json:"check_quarantines,omitempty"`
 	// 0 record at From domain; 1 record only at organisational domain (From domain NXDOMAIN);
 	// 2 no DMARC record (unrelated TXT at both); 3 two DMARC records at From domain; 4 NXDOMAIN for both names;
-	// 5 SERVFAIL at From domain; 6 NXDOMAIN at From domain, SERVFAIL at organisational domain; 7 timeout at From domain
+	// 5 SERVFAIL at From domain; 6 NXDOMAIN at From domain, SERVFAIL at organisational domain; 7 timeout at From domain;
+	// 8 only TXT records that are not DMARC records at the From domain (a wildcard SPF record, say), the record at the organisational domain
 	Lookup int `json:"lookup"`
 }
 
@@ -174,7 +197,7 @@ func c07Gen(t *rapid.T) c07Scenario {
 	sc.P = rapid.SampledFrom([]string{"none", "quarantine", "reject", "reject", "quarantine", ""}).Draw(t, "p")
 	sc.SP = rapid.SampledFrom([]string{"", "", "none", "quarantine", "reject"}).Draw(t, "sp")
 	sc.Pct100 = rapid.IntRange(0, 3).Draw(t, "pct") == 0
-	sc.Lookup = rapid.SampledFrom([]int{0, 0, 0, 0, 1, 1, 1, 2, 3, 4, 5, 6, 7}).Draw(t, "lookup")
+	sc.Lookup = rapid.SampledFrom([]int{0, 0, 0, 0, 1, 1, 1, 2, 3, 4, 5, 6, 7, 8, 8}).Draw(t, "lookup")
 	sc.CheckQuarantines = rapid.IntRange(0, 5).Draw(t, "check_quarantines") == 0
 	return sc
 }
@@ -229,6 +252,16 @@ func c07Model(sc c07Scenario) c07Expect {
 	switch sc.Lookup {
 	case 0:
 		haveRecord, atFrom = true, true
+	case 8:
+		switch {
+		case fromIsOrg:
+			// one name only, and it has no DMARC record among its TXT records
+			return c07Expect{Actions: set("accept"), Verdicts: set("none"), Why: "no DMARC record among the TXT records of the only name"}
+		case org == "":
+			return c07Expect{Actions: set("accept"), Verdicts: set("*"), Why: "From domain is a public suffix without its own record: no policy"}
+		default:
+			haveRecord = true // records that are not DMARC records are discarded first; the set is empty then: organisational domain
+		}
 	case 1:
 		switch {
 		case fromIsOrg:
@@ -326,8 +359,9 @@ func c07Zones(sc c07Scenario) map[string]mockdns.Zone {
 	from := c07Lower(sc.fromDomain())
 	org := c07Org[from]
 	z := map[string]mockdns.Zone{}
-	fromName := "_dmarc." + from + "."
-	orgName := "_dmarc." + org + "."
+	// the DNS knows A-labels only
+	fromName := "_dmarc." + c07ALabel(from) + "."
+	orgName := "_dmarc." + c07ALabel(org) + "."
 	servfail := &net.DNSError{Err: "server misbehaving", Name: fromName, IsTemporary: true}
 	timeout := &net.DNSError{Err: "i/o timeout", Name: fromName, IsTimeout: true}
 	switch sc.Lookup {
@@ -353,6 +387,11 @@ func c07Zones(sc c07Scenario) map[string]mockdns.Zone {
 		}
 	case 7:
 		z[fromName] = mockdns.Zone{Err: timeout}
+	case 8:
+		z[fromName] = mockdns.Zone{TXT: []string{"v=spf1 -all", "site-verification=abc123"}}
+		if org != "" && org != from {
+			z[orgName] = mockdns.Zone{TXT: []string{sc.record()}}
+		}
 	}
 	return z
 }
